@@ -464,15 +464,43 @@ func c03Impl(c *Ctx, im setImpl) {
 									}
 								}
 								if name == "Len" {
+									var cell *Term
 									for _, q := range cp.Paths {
 										incs := 0
 										for k := range q.Events {
-											if q.Events[k].Kind == "store" && (q.Events[k].Addr.Op == "free" || q.Events[k].Addr.Op == "alloc") {
+											ev := &q.Events[k]
+											if ev.Kind == "store" && (ev.Addr.Op == "free" || ev.Addr.Op == "alloc") {
 												incs++
+												// counter = counter + 1, nothing else
+												d := ToPoly(ev.Val).Add(ToPoly(&Term{Op: "load", Args: []*Term{ev.Addr}}), -1)
+												if k1, isC := d.IsConst(); !isC || k1 != 1 {
+													ok, why = false, "the counter does not go up by exactly one per enumerated member: "+ev.String()
+												}
+												cell = ev.Addr
 											}
 										}
-										if incs != 1 {
+										if incs != 1 || len(q.Conds) != 0 {
 											ok, why = false, "the count is not incremented once per enumerated member"
+										}
+									}
+									// the counter starts at zero in the enclosing function and is what is returned
+									if cell != nil && ok {
+										var outer *Term
+										for bi, b := range p.Events[j].Val.Args {
+											_ = bi
+											if b.Op == "alloc" {
+												outer = b
+											}
+										}
+										if outer == nil || len(p.Rets) != 1 || p.Rets[0].Op != "load" || p.Rets[0].Args[0].Key() != outer.Key() || len(p.Events[j].Val.Args) != 1 {
+											ok, why = false, "the counted cell is not what Len returns"
+										} else {
+											for k := range p.Events {
+												ev := &p.Events[k]
+												if ev.Kind == "store" && ev.Addr.Key() == outer.Key() && !(ev.Val.IsConst("0") || ev.Val.Op == "zero") {
+													ok, why = false, "the counter does not start at zero: "+ev.String()
+												}
+											}
 										}
 									}
 								}
